@@ -31,6 +31,14 @@ MACHINE = {'double': {'epsilon': 2.0 ** -52, 'min': 2.0 ** -1022, 'max': 1.79769
            'float': {'epsilon': 2.0 ** -23, 'min': 2.0 ** -126, 'max': 3.4028234663852886e38, 'lowest': -3.4028234663852886e38, 'infinity': float('inf'), 'quiet_NaN': float('nan'), 'denorm_min': 2.0 ** -149}}
 
 
+class _Break(Exception):
+    pass
+
+
+class _Continue(Exception):
+    pass
+
+
 class Returned(Exception):
     def __init__(self, v):
         self.v = v
@@ -46,6 +54,8 @@ class Step:
         self.aliases = dict(aliases or {})    # local reference name -> key
         self.hooks = {}                       # operator -> callable(expr, env): caller-supplied meaning of a call
         self.fallback = None                  # callable(expr, env) -> value | NotImplemented, asked before an expression is given up
+        self.consts = {}                      # namespace-scope constants the compiler folded (collected from the bodies that are run)
+        self.loops = 0                        # > 0: while / do / range-for loops are really run, at most that many rounds (concrete sequences, see list_hooks)
 
     def key(self, t):
         while isinstance(t, tuple):
@@ -68,6 +78,8 @@ class Step:
             k = self.aliases.get(t, t)
             if k in env:
                 return env[k]
+            if k in self.consts:
+                return self.consts[k]
             raise Unsupported('unknown name %s' % t)
         if not isinstance(t, tuple) or not t:
             raise Unsupported('expression %s' % (t,))
@@ -192,7 +204,11 @@ class Step:
                         continue
                     except Unsupported:
                         pass
-                env[v['name']] = self.ev(t, env)
+                val = self.ev(t, env)
+                ty = v.get('t') or {}
+                if ty.get('c') == 'int' and ty.get('signed') is False and isinstance(val, int) and not isinstance(val, bool) and val < 0 and ty.get('bits'):
+                    val %= 2 ** int(ty['bits'])            # conversion of a negative integer to an unsigned type: modulo 2^N
+                env[v['name']] = val
         elif k == 'For':
             # component loop: for (i = 0; i < SIZE; ++i) over the coordinates -> one generic coordinate
             init = node.get('init')
@@ -200,12 +216,48 @@ class Step:
                 raise Unsupported('loop at %s' % node.get('loc'))
             self.index_vars.add(init['vars'][0]['name'])
             self.run(node.get('b'), env, ignore)
+        elif k in ('While', 'Do') and self.loops:
+            n_ = 0
+            if k == 'Do':
+                self.run(node.get('b'), env, ignore)
+            while self.ev(self.unwrap(sx(node['c'])), env):
+                n_ += 1
+                if n_ > self.loops:
+                    raise Unsupported('loop at %s does not end within %d rounds' % (node.get('loc'), self.loops))
+                try:
+                    self.run(node.get('b'), env, ignore)
+                except _Break:
+                    break
+                except _Continue:
+                    continue
+        elif k == 'RangeFor' and self.loops:
+            seq = self.ev(self.unwrap(sx(node['range'])), env)
+            if not isinstance(seq, (list, tuple)):
+                raise Unsupported('range-for over %s' % (seq,))
+            for item in list(seq):
+                env[node['var']['name']] = item
+                try:
+                    self.run(node.get('b'), env, ignore)
+                except _Break:
+                    break
+                except _Continue:
+                    continue
+        elif k == 'Break' and self.loops:
+            raise _Break()
+        elif k == 'Continue' and self.loops:
+            raise _Continue()
+        elif k == 'Null':
+            return
         else:
             raise Unsupported('statement %s at %s' % (k, node.get('loc')))
 
 
     def call(self, body, env, ignore=()):
         """Runs a function body; returns its return value (None if it falls off the end)."""
+        from .tree import walk
+        for x in walk(body):
+            if isinstance(x, dict) and x.get('k') == 'Ref' and x.get('rk') == 'global' and not x.get('mut') and isinstance(x.get('cv'), (int, float)) and not isinstance(x.get('cv'), bool):
+                self.consts.setdefault(x['name'], x['cv'])
         try:
             self.run(body, env, ignore)
         except Returned as r:
@@ -213,7 +265,7 @@ class Step:
         return None
 
 
-def inliner(fx, step, max_depth=4):
+def inliner(fx, step, max_depth=4, cls=None):
     """A fallback for `step` that evaluates calls of in-repository free functions / methods with a body (unique by name and arity) by running the callee's body on the argument values
     (value semantics; no write-back).  step.fallback = inliner(fx, step)."""
     depth = [0]
@@ -226,12 +278,18 @@ def inliner(fx, step, max_depth=4):
         name = op.lstrip('.').split('<')[0].split('::')[-1]
         args = t[2:] if method else t[1:]
         cands = [g for g in fx.functions.values() if g.get('body') is not None and g['name'] == name and len(g.get('params', [])) == len(args)]
+        if cls is not None and method and any(g.get('cls') == cls for g in cands):
+            cands = [g for g in cands if g.get('cls') == cls]            # a member call on *this: the member of the class being read
         if len({g['q'].split('<')[0] for g in cands}) != 1:
             return NotImplemented
         g = cands[0]
         sub = Step(step.unwrap, index_vars=set(step.index_vars))
         sub.hooks = dict(step.hooks)
-        sub.fallback = fb
+        sub.loops = step.loops
+        if step.loops:
+            list_hooks(sub, step.loops)                       # the callee's own iterators act on the callee's environment
+        inner = sub.fallback
+        sub.fallback = (lambda t_, e_: (lambda r_: r_ if r_ is not NotImplemented else fb(t_, e_))(inner(t_, e_))) if inner is not None else fb
         e2 = {p_['name']: step.ev(a_, env) for p_, a_ in zip(g['params'], args)}
         for k_, v_ in env.items():
             if isinstance(k_, str) and k_.startswith('this.') and method:
@@ -242,3 +300,94 @@ def inliner(fx, step, max_depth=4):
         finally:
             depth[0] -= 1
     return fb
+
+
+class SeqIter(object):
+    """a position in a concrete sequence (std::list / std::vector iterators of the step evaluator)"""
+    def __init__(self, seq, i):
+        self.seq, self.i = seq, i
+
+    def __eq__(self, o):
+        return isinstance(o, SeqIter) and o.seq is self.seq and o.i == self.i
+
+    def __ne__(self, o):
+        return not self.__eq__(o)
+
+    def __hash__(self):
+        return hash((id(self.seq), self.i))
+
+    def deref(self):
+        if not (0 <= self.i < len(self.seq)):
+            raise Unsupported('iterator dereferenced outside the sequence (position %d of %d)' % (self.i, len(self.seq)))
+        return self.seq[self.i]
+
+
+def list_hooks(step, loops=10000):
+    """Gives `step` concrete sequences: env maps a container name to a python list (elements: numbers, or dicts field -> value); begin/end/cbegin/cend (member and std::),
+    ++/-- on iterators, *it, it->field, size(), empty(), front(), back(), std::next/prev."""
+    step.loops = loops
+
+    def seq(t, env):
+        v = step.ev(t, env)
+        if not isinstance(v, list):
+            raise Unsupported('not a sequence: %s' % (t,))
+        return v
+    for nm in ('std::cbegin', 'std::begin', '.begin', '.cbegin'):
+        step.hooks[nm] = lambda t, env: SeqIter(seq(t[1], env), 0)
+    for nm in ('std::cend', 'std::end', '.end', '.cend'):
+        step.hooks[nm] = lambda t, env: SeqIter(seq(t[1], env), len(seq(t[1], env)))
+    step.hooks['.size'] = lambda t, env: len(seq(t[1], env))
+    step.hooks['.empty'] = lambda t, env: len(seq(t[1], env)) == 0
+    step.hooks['.front'] = lambda t, env: SeqIter(seq(t[1], env), 0).deref()
+    step.hooks['.back'] = lambda t, env: SeqIter(seq(t[1], env), len(seq(t[1], env)) - 1).deref()
+
+    def incr(d, post):
+        def h(t, env):
+            v = step.ev(t[1], env)
+            k = step.key(t[1])
+            if isinstance(v, SeqIter):
+                nv = SeqIter(v.seq, v.i + d)
+            elif isinstance(v, (int, float)) and not isinstance(v, bool):
+                nv = v + d
+            else:
+                raise Unsupported('increment of %s' % (v,))
+            env[k] = nv
+            return v if post else nv
+        return h
+    step.hooks['++'] = incr(1, False)
+    step.hooks['++u'] = incr(1, False)
+    step.hooks['u++'] = incr(1, True)
+    step.hooks['--'] = incr(-1, False)
+    step.hooks['--u'] = incr(-1, False)
+    step.hooks['u--'] = incr(-1, True)
+
+    def deref(t, env):
+        v = step.ev(t[1], env)
+        if isinstance(v, SeqIter):
+            return v.deref()
+        raise Unsupported('dereference of %s' % (v,))
+    step.hooks['->'] = deref
+    step.hooks['u*'] = deref
+
+    def nxt(d):
+        def h(t, env):
+            v = step.ev(t[1], env)
+            n_ = step.ev(t[2], env) if len(t) > 2 else 1
+            if not isinstance(v, SeqIter):
+                raise Unsupported('std::next of %s' % (v,))
+            return SeqIter(v.seq, v.i + d * int(n_))
+        return h
+    step.hooks['std::next'] = nxt(1)
+    step.hooks['std::prev'] = nxt(-1)
+    prev_fb = step.fallback
+
+    def fb(t, env):
+        if isinstance(t[0], str) and t[0].startswith('.member:') and len(t) == 2:
+            o = step.ev(t[1], env)
+            f_ = t[0][len('.member:'):]
+            if isinstance(o, dict) and f_ in o:
+                return o[f_]
+            raise Unsupported('field %s of %s' % (f_, o))
+        return prev_fb(t, env) if prev_fb is not None else NotImplemented
+    step.fallback = fb
+    return step
